@@ -1,1262 +1,20 @@
-// Driver tokstore: correspondence and monitors for C16 (stateful token store,
-// token/stateful.go).  The real `token` package API runs on a file in a
-// temporary directory; every operation is also run through the extracted Coq
-// model (Model/TokenStore.v) by the model driver.
-//
-// Components (H lines):
-//   tokstore  histories compared with the model (ops get/list/upd/del/expire/
-//             ext/restart/repoint/view)
-//   tokrace   real goroutines racing conditional writes (monitors only)
-//   tokcrash  one rewrite/append in a child process killed by strace at the
-//             n-th system call (monitors only)
-//   tokfail   one Expire/Delete in a child whose rename is made to fail by
-//             strace (monitors only; observation about I/O errors)
+// Driver tokstore (C16): the real token package on a JSON-lines file against
+// the extracted Coq model Model/TokenStore.v, with monitors, racing
+// goroutines and strace kill points.  The code is in internal/tokdrv (shared
+// with the HTTP-level driver tokapi); this binary deliberately does not link
+// the web server, so that the traced child processes of the crash points
+// start quickly.
 package main
 
 import (
-	"bytes"
-	"encoding/json"
-	"errors"
-	"fmt"
-	"io"
-	"os"
-	"os/exec"
-	"path/filepath"
-	"runtime"
-	"sort"
-	"strconv"
-	"strings"
-	"sync"
-	"time"
-
-	"github.com/jech/galene/token"
-
+	"verifharness/internal/tokdrv"
 	"verifharness/internal/tr"
 )
 
-// ------------------------------------------------------------ vocabulary
-
-var t0 time.Time // all token times are offsets in seconds from t0
-
-var tokNames = []string{"", "tokA", "tokB", "tokC", "tokD", "tokE"}
-var grpNames = []string{"", "g1", "g2"}
-
-const week = 7 * 24 * 3600
-
-// rec is a token at the level of the model.
-type rec struct {
-	name, group int
-	exp, nbf    *int
-	data        int
-}
-
-func ip(i int) *int { return &i }
-
-func optS(p *int) string {
-	if p == nil {
-		return "n"
-	}
-	return strconv.Itoa(*p)
-}
-
-func (r rec) String() string {
-	return fmt.Sprintf("%d/%d/%s/%s/%d", r.name, r.group, optS(r.exp), optS(r.nbf), r.data)
-}
-
-func offTime(p *int) *time.Time {
-	if p == nil {
-		return nil
-	}
-	t := t0.Add(time.Duration(*p) * time.Second)
-	return &t
-}
-
-func timeOff(t *time.Time) *int {
-	if t == nil {
-		return nil
-	}
-	d := t.Sub(t0)
-	s := int(d / time.Second)
-	if time.Duration(s)*time.Second != d {
-		s = 999999999 // not a whole second: never generated
-	}
-	return &s
-}
-
-var perms = [][]string{{"present"}, {"present", "message"}}
-
-func (r rec) stateful() *token.Stateful {
-	u := fmt.Sprintf("u%d", r.data)
-	return &token.Stateful{
-		Token:       tokNames[r.name],
-		Group:       grpNames[r.group],
-		Username:    &u,
-		Permissions: append([]string{}, perms[r.data%2]...),
-		Expires:     offTime(r.exp),
-		NotBefore:   offTime(r.nbf),
-	}
-}
-
-func idx(l []string, s string) int {
-	for i, x := range l {
-		if x == s {
-			return i
-		}
-	}
-	return -1
-}
-
-func toRec(s *token.Stateful) rec {
-	r := rec{name: idx(tokNames, s.Token), group: idx(grpNames, s.Group),
-		exp: timeOff(s.Expires), nbf: timeOff(s.NotBefore), data: -1}
-	if s.Username != nil && len(*s.Username) == 2 && (*s.Username)[0] == 'u' {
-		d := int((*s.Username)[1] - '0')
-		if d >= 0 && d <= 9 && fmt.Sprint(s.Permissions) == fmt.Sprint(perms[d%2]) &&
-			!s.IncludeSubgroups && s.IssuedAt == nil && s.IssuedBy == nil {
-			r.data = d
-		}
-	}
-	return r
-}
-
-func encodeLines(rs []rec, junkAt int) []byte {
-	var b bytes.Buffer
-	e := json.NewEncoder(&b)
-	for i, r := range rs {
-		if i == junkAt {
-			b.WriteString("{\"token\":\"x\",\"gro\n")
-		}
-		e.Encode(r.stateful())
-	}
-	if junkAt >= len(rs) {
-		b.WriteString("{\"token\":\"tokA\",\"group\":\"g1\",\"userna")
-	}
-	return b.Bytes()
-}
-
-// parseFile is the driver's own reader of the JSON-lines file: the records in
-// order, and whether something does not decode.
-func parseFile(path string) (recs []rec, exists bool, junk bool, raw []byte) {
-	raw, err := os.ReadFile(path)
-	if err != nil {
-		return nil, false, false, nil
-	}
-	d := json.NewDecoder(bytes.NewReader(raw))
-	for {
-		var s token.Stateful
-		err := d.Decode(&s)
-		if err == io.EOF {
-			break
-		}
-		if err != nil {
-			return recs, true, true, raw
-		}
-		recs = append(recs, toRec(&s))
-	}
-	return recs, true, false, raw
-}
-
-// lastWins is what a reader that keeps the last record of each name sees.
-func lastWins(recs []rec) map[int]rec {
-	m := map[int]rec{}
-	for _, r := range recs {
-		m[r.name] = r
-	}
-	return m
-}
-
-func classify(err error) string {
-	switch {
-	case err == nil:
-		return "ok"
-	case errors.Is(err, token.ErrTagMismatch):
-		return "mismatch"
-	case errors.Is(err, os.ErrNotExist):
-		return "notexist"
-	}
-	return "other"
-}
-
-func idsS(ids []int) string {
-	if len(ids) == 0 {
-		return "-"
-	}
-	sort.Ints(ids)
-	s := make([]string, len(ids))
-	for i, x := range ids {
-		s[i] = strconv.Itoa(x)
-	}
-	return strings.Join(s, ",")
-}
-
-// ------------------------------------------------------------ one history
-
-type hist struct {
-	t    *tr.Trace
-	r    *tr.Rand
-	dir  string
-	path string
-
-	mt      map[int64]int // mtime (ns) -> id, by first appearance
-	maxMt   int64
-	synth   int // counter of synthetic (past) mtimes
-	stamps  map[string]bool
-	broken  bool // a stamp was reused: the property's hypothesis does not hold in this history
-	held    []string
-	heldVer map[string]int
-	ver     int
-	lastSig string
-	revoked map[int]bool
-	writes  int
-	tagID   map[string]int
-}
-
-var histCount int
-
-func newHist(t *tr.Trace, r *tr.Rand, base, comp, stream string) *hist {
-	histCount++
-	dir := filepath.Join(base, fmt.Sprintf("h%d", histCount))
-	os.MkdirAll(dir, 0700)
-	h := &hist{t: t, r: r, dir: dir, path: filepath.Join(dir, "tokens.jsonl"),
-		mt: map[int64]int{}, stamps: map[string]bool{}, heldVer: map[string]int{},
-		revoked: map[int]bool{}, tagID: map[string]int{}}
-	t.History(comp, stream)
-	token.SetStatefulFilename(h.path)
-	token.VerifResetStateful()
-	return h
-}
-
-func (h *hist) done() { os.RemoveAll(h.dir) }
-
-func (h *hist) mtid(ns int64) int {
-	if id, ok := h.mt[ns]; ok {
-		return id
-	}
-	id := len(h.mt) + 1
-	h.mt[ns] = id
-	return id
-}
-
-// stamp of the file now: "size:mtid", "0:0" when there is no file
-func (h *hist) stamp() string {
-	fi, err := os.Stat(h.path)
-	if err != nil {
-		return "0:0"
-	}
-	ns := fi.ModTime().UnixNano()
-	if ns > h.maxMt {
-		h.maxMt = ns
-	}
-	return fmt.Sprintf("%d:%d", fi.Size(), h.mtid(ns))
-}
-
-// etagS names an etag string of the implementation: "-" when empty, else
-// t<k> where k numbers the distinct tags in the order the store returned them
-// (the format of the tag is not part of the property)
-func (h *hist) etagS(e string) string {
-	if e == "" {
-		return "-"
-	}
-	id, ok := h.tagID[e]
-	if !ok {
-		id = len(h.tagID) + 1
-		h.tagID[e] = id
-	}
-	return fmt.Sprintf("t%d", id)
-}
-
-// currentEtag is the driver's own signature of the file's stamp (size and
-// mtime from stat), used to tell versions apart.
-func (h *hist) currentEtag() string {
-	fi, err := os.Stat(h.path)
-	if err != nil {
-		return ""
-	}
-	return fmt.Sprintf("\"%v-%v\"", fi.Size(), fi.ModTime().UnixNano())
-}
-
-// waitTick returns when the clock that stamps new files has passed every
-// modification time used so far, so that the next version gets a new stamp.
-func (h *hist) waitTick() {
-	p := filepath.Join(h.dir, "probe")
-	for i := 0; i < 200000; i++ {
-		os.Remove(p)
-		os.WriteFile(p, []byte("x"), 0600)
-		fi, err := os.Stat(p)
-		if err == nil && fi.ModTime().UnixNano() > h.maxMt {
-			os.Remove(p)
-			return
-		}
-		time.Sleep(100 * time.Microsecond)
-	}
-	os.Remove(p)
-}
-
-// noteVersion is called after every operation: tracks file versions and
-// whether the freshness hypothesis still holds.
-func (h *hist) noteVersion() {
-	raw, err := os.ReadFile(h.path)
-	sig := "-"
-	st := ""
-	if err == nil {
-		st = h.currentEtag()
-		sig = st + string(raw)
-	}
-	if sig != h.lastSig {
-		h.ver++
-		h.lastSig = sig
-		if st != "" {
-			if h.stamps[st] {
-				h.broken = true
-				h.t.Note("stamp-reused")
-			}
-			h.stamps[st] = true
-		}
-	}
-}
-
-func (h *hist) hold(e string) {
-	if e == "" {
-		return
-	}
-	h.heldVer[e] = h.ver
-	for _, x := range h.held {
-		if x == e {
-			return
-		}
-	}
-	h.held = append(h.held, e)
-}
-
-func (h *hist) checkRevoked(name int, honoured bool, where string) {
-	h.t.Checked("C16.revocation_final")
-	if honoured && h.revoked[name] {
-		h.t.Fail("C16", "revocation_final", fmt.Sprintf("%s: token %d (%q) was deleted or swept and not re-created, but is honoured again", where, name, tokNames[name]))
-	}
-}
-
-func (h *hist) get(name int) string {
-	s, e, err := token.Get(tokNames[name])
-	c := classify(err)
-	obs := c + " - -"
-	if err == nil {
-		h.hold(e)
-		obs = fmt.Sprintf("ok %s %s", h.etagS(e), toRec(s))
-	}
-	h.t.Op(obs, "get", name)
-	h.checkRevoked(name, err == nil, "get")
-	h.noteVersion()
-	if err == nil {
-		return e
-	}
-	return ""
-}
-
-func (h *hist) list(group int) {
-	l, e, err := token.List(grpNames[group])
-	c := classify(err)
-	obs := c + " - -"
-	if err == nil {
-		h.hold(e)
-		var ids []int
-		for _, s := range l {
-			id := idx(tokNames, s.Token)
-			ids = append(ids, id)
-			h.checkRevoked(id, true, "list")
-		}
-		obs = fmt.Sprintf("ok %s %s", h.etagS(e), idsS(ids))
-	}
-	h.t.Op(obs, "list", group)
-	h.noteVersion()
-}
-
-// condCheck is the monitor of the conditional-write clause: a write of an
-// existing token succeeds only with a tag that the store returned, and (when
-// every version had a new stamp) only if the file has not changed since the
-// store returned it; a creation succeeds only without a tag.
-func (h *hist) condCheck(what string, e string, verBefore int, existed bool, c string) {
-	if h.broken {
-		// a stamp was reused: the store may legitimately be out of date
-		// (the model predicts what it does)
-		return
-	}
-	h.t.Checked("C16.conditional")
-	if c != "ok" {
-		return
-	}
-	if existed {
-		v, handedOut := h.heldVer[e]
-		if e == "" || !handedOut {
-			h.t.Fail("C16", "conditional", fmt.Sprintf("%s of an existing token succeeded with the tag %q, which is not a tag of the current version", what, e))
-			return
-		}
-		if v != verBefore {
-			h.t.Fail("C16", "conditional", fmt.Sprintf("%s with tag %s succeeded although the file changed since that tag was read", what, e))
-		}
-	} else if e != "" {
-		h.t.Fail("C16", "conditional", fmt.Sprintf("%s created a token although a tag %s was given", what, e))
-	}
-}
-
-func (h *hist) upd(rc rec, e string) string {
-	h.waitTickMaybe()
-	recs, _, _, _ := parseFile(h.path)
-	_, existed := lastWins(recs)[rc.name]
-	verBefore := h.ver
-	_, err := token.Update(rc.stateful(), e)
-	c := classify(err)
-	st := h.stamp()
-	h.t.Op(c, "upd", rc.String(), h.etagArg(e), "0:0", st)
-	h.condCheck("Update", e, verBefore, existed, c)
-	if c == "ok" {
-		delete(h.revoked, rc.name)
-		h.writes++
-	}
-	h.noteVersion()
-	return c
-}
-
-func (h *hist) del(name int, e string) string {
-	h.waitTickMaybe()
-	recs, _, _, _ := parseFile(h.path)
-	_, existed := lastWins(recs)[name]
-	verBefore := h.ver
-	err := token.Delete(tokNames[name], e)
-	c := classify(err)
-	st := h.stamp()
-	h.t.Op(c, "del", name, h.etagArg(e), st)
-	h.condCheck("Delete", e, verBefore, existed, c)
-	if c == "ok" {
-		if !existed && !h.broken {
-			h.t.Fail("C16", "conditional", fmt.Sprintf("Delete of %d succeeded although the file has no such token", name))
-		}
-		h.revoked[name] = true
-		h.writes++
-	}
-	h.noteVersion()
-	return c
-}
-
-func (h *hist) expire() {
-	h.waitTickMaybe()
-	recs, _, junk, _ := parseFile(h.path)
-	now := int(time.Since(t0) / time.Second)
-	err := token.Expire()
-	c := classify(err)
-	st := h.stamp()
-	h.t.Op(c, "expire", now, st)
-	if c == "ok" && !junk && !h.broken {
-		for _, r := range lastWins(recs) {
-			if r.exp != nil && *r.exp < now-week {
-				h.revoked[r.name] = true
-			}
-		}
-	}
-	h.noteVersion()
-}
-
-// etagArg: the tag as the model sees it: "-", a tag the store has returned
-// (t<k>), or "bad" for a string the store never returned
-func (h *hist) etagArg(e string) string {
-	if e == "" {
-		return "-"
-	}
-	if id, ok := h.tagID[e]; ok {
-		return fmt.Sprintf("t%d", id)
-	}
-	return "bad"
-}
-
-var tickWait = true
-
-func (h *hist) waitTickMaybe() {
-	if tickWait {
-		h.waitTick()
-	}
-}
-
-// ext replaces the file behind the store's back.  mode: 0 = fresh real time,
-// 1 = fresh synthetic time (in the past), 2 = the mtime the file had before
-func (h *hist) ext(content []rec, junkAt int, remove bool, mode int) {
-	fi, errOld := os.Stat(h.path)
-	arg := "-"
-	if remove {
-		os.Remove(h.path)
-	} else {
-		if mode == 0 {
-			h.waitTick()
-		}
-		data := encodeLines(content, junkAt)
-		tmp := h.path + ".ext"
-		os.WriteFile(tmp, data, 0600)
-		os.Rename(tmp, h.path)
-		switch {
-		case mode == 1:
-			h.synth++
-			mt := t0.Add(-400*24*time.Hour + time.Duration(h.synth)*time.Second)
-			os.Chtimes(h.path, mt, mt)
-		case mode == 2 && errOld == nil:
-			os.Chtimes(h.path, fi.ModTime(), fi.ModTime())
-		}
-		var parts []string
-		for i, r := range content {
-			if i == junkAt {
-				parts = append(parts, "!")
-			}
-			parts = append(parts, r.String())
-		}
-		if junkAt >= len(content) {
-			parts = append(parts, "!")
-		}
-		arg = "e"
-		if len(parts) > 0 {
-			arg = strings.Join(parts, ";")
-		}
-	}
-	st := h.stamp()
-	h.t.Op("-", "ext", arg, st)
-	// an external edit may re-create any name it contains
-	for _, r := range content {
-		delete(h.revoked, r.name)
-	}
-	h.noteVersion()
-}
-
-func (h *hist) restart() {
-	token.VerifResetStateful()
-	h.t.Op("-", "restart")
-}
-
-func (h *hist) repoint() {
-	token.SetStatefulFilename(h.path)
-	h.t.Op("-", "repoint")
-}
-
-// view: which names the server honours (Get on every name), what the file
-// holds, and the mirror monitor.
-func (h *hist) view() {
-	recs, exists, junk, _ := parseFile(h.path)
-	var srv []int
-	got := map[int]rec{}
-	srvErr := false
-	for id, n := range tokNames {
-		s, _, err := token.Get(n)
-		if err == nil {
-			srv = append(srv, id)
-			got[id] = toRec(s)
-		} else if !errors.Is(err, os.ErrNotExist) {
-			srvErr = true
-		}
-		h.checkRevoked(id, err == nil, "view")
-	}
-	fileS := "-"
-	if exists {
-		var ids []int
-		for _, r := range recs {
-			ids = append(ids, r.name)
-		}
-		fileS = idsS(ids)
-		if len(ids) == 0 {
-			fileS = "e"
-		}
-		if junk {
-			fileS = "!"
-		}
-	}
-	h.t.Op(fmt.Sprintf("srv=%s file=%s", idsS(srv), fileS), "view")
-
-	// mirror: honoured == what a fresh server reads == what the file says
-	fresh, _, ferr := token.VerifFreshLoad(h.path)
-	h.t.Checked("C16.mirror_fresh_server")
-	if !h.broken {
-		fm := map[int]rec{}
-		for _, s := range fresh {
-			fm[idx(tokNames, s.Token)] = toRec(s)
-		}
-		if (ferr != nil) != srvErr {
-			h.t.Fail("C16", "mirror_fresh_server", fmt.Sprintf("running server error=%v, freshly started server error=%v", srvErr, ferr))
-		} else if ferr == nil && !sameMap(fm, got) {
-			h.t.Fail("C16", "mirror_fresh_server", fmt.Sprintf("running server honours %v, a freshly started server reads %v", mapS(got), mapS(fm)))
-		}
-	}
-	h.t.Checked("C16.mirror_file")
-	if !h.broken {
-		want := lastWins(recs)
-		if junk {
-			want = map[int]rec{}
-		}
-		if !sameMap(want, got) {
-			h.t.Fail("C16", "mirror_file", fmt.Sprintf("running server honours %v, the file holds %v (junk=%v)", mapS(got), mapS(want), junk))
-		}
-		if junk != srvErr {
-			h.t.Fail("C16", "mirror_file", fmt.Sprintf("file undecodable=%v but server error=%v", junk, srvErr))
-		}
-	}
-	h.noteVersion()
-}
-
-func sameMap(a, b map[int]rec) bool {
-	if len(a) != len(b) {
-		return false
-	}
-	for k, v := range a {
-		w, ok := b[k]
-		if !ok || v.String() != w.String() {
-			return false
-		}
-	}
-	return true
-}
-
-func mapS(m map[int]rec) string {
-	var s []string
-	for _, v := range m {
-		s = append(s, v.String())
-	}
-	sort.Strings(s)
-	return "{" + strings.Join(s, " ") + "}"
-}
-
-// ------------------------------------------------------------ generators
-
-var expChoices = []*int{nil, ip(-700000), ip(-650000), ip(-600000), ip(-3600), ip(3600), ip(7200), ip(86400)}
-var nbfChoices = []*int{nil, nil, ip(-3600), ip(1800)}
-
-func genRec(r *tr.Rand, name int) rec {
-	return rec{name: name, group: r.Intn(len(grpNames)),
-		exp: expChoices[r.Intn(len(expChoices))], nbf: nbfChoices[r.Intn(len(nbfChoices))],
-		data: r.Intn(10)}
-}
-
-// pickTag chooses the tag an editor presents.
-func (h *hist) pickTag(name int) string {
-	switch h.r.Pick(55, 30, 8, 7) {
-	case 0:
-		return h.get(name) // read it now
-	case 1:
-		if len(h.held) > 0 {
-			h.t.Note("tag-held")
-			return h.held[h.r.Intn(len(h.held))]
-		}
-		return h.get(name)
-	case 2:
-		return ""
-	}
-	return "\"bad\""
-}
-
-func (h *hist) randomOp(stale bool) {
-	r := h.r
-	name := r.Intn(len(tokNames))
-	switch r.Pick(24, 18, 12, 6, 8, 6, 9, 4, 2) {
-	case 0: // create (or an unconditional overwrite attempt)
-		h.upd(genRec(r, name), "")
-	case 1: // edit
-		e := h.pickTag(name)
-		h.upd(genRec(r, name), e)
-	case 2:
-		e := h.pickTag(name)
-		h.del(name, e)
-	case 3:
-		h.expire()
-	case 4:
-		h.get(name)
-	case 5:
-		h.list(r.Intn(len(grpNames)))
-	case 6:
-		h.randomExt(stale)
-	case 7:
-		h.restart()
-	case 8:
-		h.repoint()
-	}
-	if r.Chance(1, 2) {
-		h.view()
-	}
-}
-
-func (h *hist) randomExt(stale bool) {
-	r := h.r
-	recs, _, _, _ := parseFile(h.path)
-	mode := r.Intn(2)
-	if stale && r.Chance(2, 3) {
-		mode = 2
-	}
-	kind := r.Pick(2, 4, 5, 2, 3, 1)
-	if stale {
-		kind = r.Pick(1, 2, 9, 1, 3, 1)
-	}
-	switch kind {
-	case 0:
-		h.ext(nil, -1, true, 0)
-		h.t.Note("ext-remove")
-	case 1: // arbitrary new content, possibly with a duplicate name
-		n := r.Intn(5)
-		var c []rec
-		for i := 0; i < n; i++ {
-			c = append(c, genRec(r, r.Intn(len(tokNames))))
-		}
-		h.ext(c, -1, false, mode)
-		h.t.Note("ext-replace")
-	case 2: // same size: one datum changed
-		if len(recs) == 0 {
-			h.ext([]rec{genRec(r, r.Intn(len(tokNames)))}, -1, false, mode)
-			return
-		}
-		c := append([]rec{}, recs...)
-		i := r.Intn(len(c))
-		if r.Bool() && c[i].name >= 1 {
-			// another name of the same length
-			c[i].name = 1 + (c[i].name+r.Intn(4))%5
-		} else if c[i].data >= 0 {
-			c[i].data = (c[i].data + 2) % 10
-		}
-		h.ext(c, -1, false, mode)
-		h.t.Note(fmt.Sprintf("ext-same-size-mode%d", mode))
-	case 3: // a line that does not decode
-		h.ext(recs, r.Intn(len(recs)+1), false, mode)
-		h.t.Note("ext-junk")
-	case 4: // one record dropped
-		if len(recs) == 0 {
-			h.ext(nil, -1, false, mode)
-			return
-		}
-		i := r.Intn(len(recs))
-		c := append(append([]rec{}, recs[:i]...), recs[i+1:]...)
-		h.ext(c, -1, false, mode)
-		h.t.Note(fmt.Sprintf("ext-drop-mode%d", mode))
-	case 5:
-		h.ext(nil, -1, false, mode)
-		h.t.Note("ext-empty")
-	}
-}
-
-func (h *hist) finish() {
-	h.view()
-	if h.writes >= 3 {
-		h.t.Nontrivial(fmt.Sprintf("w%d-v%d-b%v", h.writes, h.ver, h.broken))
-	}
-	h.done()
-}
-
-// corpus: fixed histories that are always run first
-func corpus(t *tr.Trace, r *tr.Rand, base string) {
-	// 1. the life of a token: create, edit with the tag, stale edit, delete, restart
-	h := newHist(t, r, base, "tokstore", "corpus")
-	h.upd(rec{1, 1, ip(3600), nil, 1}, "")
-	h.upd(rec{2, 1, ip(7200), ip(-3600), 2}, "")
-	h.upd(rec{3, 2, ip(-700000), nil, 3}, "")
-	e := h.get(2)
-	h.upd(rec{2, 1, ip(86400), nil, 4}, "")       // no tag: refused
-	h.upd(rec{2, 1, ip(86400), nil, 4}, "\"bad\"") // wrong tag: refused
-	h.upd(rec{2, 1, ip(86400), nil, 4}, e)
-	h.upd(rec{2, 1, ip(3600), nil, 5}, e) // stale now
-	h.view()
-	h.del(1, e) // stale
-	e = h.get(1)
-	h.del(1, e)
-	h.view()
-	h.restart()
-	h.view()
-	h.expire() // sweeps 3
-	h.restart()
-	h.view()
-	h.list(1)
-	h.finish()
-
-	// 2. deleting the last token removes the file; re-creation
-	h = newHist(t, r, base, "tokstore", "corpus")
-	h.upd(rec{1, 1, ip(3600), nil, 1}, "")
-	e = h.get(1)
-	h.del(1, e)
-	h.view()
-	h.upd(rec{1, 1, ip(3600), nil, 1}, e) // old tag, token gone
-	h.upd(rec{1, 1, ip(3600), nil, 2}, "")
-	h.view()
-	h.finish()
-
-	// 3. external edits: noticed when the stamp differs, not when it is the same
-	h = newHist(t, r, base, "tokstore", "corpus")
-	h.upd(rec{1, 1, ip(3600), nil, 1}, "")
-	h.upd(rec{2, 2, ip(3600), nil, 2}, "")
-	h.view()
-	h.ext([]rec{{1, 1, ip(3600), nil, 3}, {2, 2, ip(3600), nil, 2}}, -1, false, 0) // same size, new mtime
-	h.view()
-	h.ext([]rec{{1, 1, ip(3600), nil, 5}, {2, 2, ip(3600), nil, 2}}, -1, false, 2) // same size, same mtime
-	h.view()
-	h.ext([]rec{{2, 2, ip(3600), nil, 2}}, -1, false, 2) // other size, same mtime
-	h.view()
-	h.ext([]rec{{2, 2, ip(3600), nil, 2}}, 1, false, 0) // torn last line
-	h.view()
-	h.upd(rec{4, 1, ip(3600), nil, 1}, "")
-	h.ext(nil, -1, true, 0)
-	h.view()
-	h.finish()
-
-	// 4. Expire persists the sweep; a restart does not bring the token back
-	h = newHist(t, r, base, "tokstore", "corpus")
-	h.upd(rec{1, 1, ip(-700000), nil, 1}, "")
-	h.upd(rec{2, 1, ip(-600000), nil, 1}, "")
-	h.upd(rec{3, 1, nil, nil, 1}, "")
-	h.expire()
-	h.view()
-	h.restart()
-	h.view()
-	h.repoint()
-	h.view()
-	h.finish()
-}
-
-// editors: two editors, each [read the tag][write with it], in all six orders
-func editors(t *tr.Trace, r *tr.Rand, base string, k int) {
-	scheds := [][]int{{0, 0, 1, 1}, {0, 1, 0, 1}, {0, 1, 1, 0}, {1, 0, 0, 1}, {1, 0, 1, 0}, {1, 1, 0, 0}}
-	sc := scheds[k%len(scheds)]
-	h := newHist(t, r, base, "tokstore", "editors")
-	h.upd(genRec(r, 1), "")
-	h.upd(genRec(r, 2), "")
-	if r.Bool() {
-		h.upd(genRec(r, 3), "")
-	}
-	target := [2]int{1, 1 + r.Intn(2)} // same token or two different tokens: the tag is per file
-	kindDel := [2]bool{r.Chance(1, 3), r.Chance(1, 3)}
-	var tag [2]string
-	var pc [2]int
-	var okc [2]bool
-	for _, ed := range sc {
-		if pc[ed] == 0 {
-			tag[ed] = h.get(target[ed])
-		} else {
-			var c string
-			if kindDel[ed] {
-				c = h.del(target[ed], tag[ed])
-			} else {
-				c = h.upd(genRec(r, target[ed]), tag[ed])
-			}
-			okc[ed] = c == "ok"
-		}
-		pc[ed]++
-	}
-	h.t.Checked("C16.two_editors")
-	if tag[0] == tag[1] && tag[0] != "" && okc[0] && okc[1] && !h.broken {
-		h.t.Fail("C16", "two_editors", fmt.Sprintf("schedule %v: both editors hold tag %s and both writes succeeded", sc, tag[0]))
-	}
-	h.t.Note(fmt.Sprintf("editors-sched-%d", k%len(scheds)))
-	h.finish()
-}
-
-// race: n goroutines present the same tag at the same time
-func race(t *tr.Trace, r *tr.Rand, base string) {
-	h := newHist(t, r, base, "tokrace", "race")
-	defer h.done()
-	token.Update(rec{1, 1, ip(3600), nil, 0}.stateful(), "")
-	token.Update(rec{2, 1, ip(3600), nil, 0}.stateful(), "")
-	h.stamp()
-	h.waitTick()
-	_, e, err := token.Get(tokNames[1])
-	if err != nil {
-		h.t.Fail("C16", "exclusive_race", "setup failed: "+err.Error())
-		return
-	}
-	n := 2 + r.Intn(7)
-	res := make([]string, n)
-	kinds := make([]int, n)
-	for i := range kinds {
-		kinds[i] = r.Intn(3)
-	}
-	start := make(chan struct{})
-	var wg sync.WaitGroup
-	for i := 0; i < n; i++ {
-		wg.Add(1)
-		go func(i int) {
-			defer wg.Done()
-			<-start
-			var err error
-			switch kinds[i] {
-			case 0:
-				_, err = token.Update(rec{1, 1, ip(7200), nil, i % 10}.stateful(), e)
-			case 1:
-				_, err = token.Update(rec{2, 1, ip(7200), nil, i % 10}.stateful(), e)
-			default:
-				err = token.Delete(tokNames[1+i%2], e)
-			}
-			res[i] = classify(err)
-		}(i)
-	}
-	close(start)
-	wg.Wait()
-	oks := 0
-	winner := -1
-	for i, c := range res {
-		if c == "ok" {
-			oks++
-			winner = i
-		}
-	}
-	h.t.Op(fmt.Sprintf("ok=%d", oks), "race", n)
-	h.t.Checked("C16.exclusive_race")
-	if oks > 1 {
-		h.t.Fail("C16", "exclusive_race", fmt.Sprintf("%d goroutines presented the same tag and %d succeeded: %v", n, oks, res))
-	}
-	if oks == 0 {
-		h.t.Fail("C16", "exclusive_race", fmt.Sprintf("no writer with the current tag succeeded: %v", res))
-	}
-	// the file holds the winner's version
-	recs, _, junk, _ := parseFile(h.path)
-	m := lastWins(recs)
-	h.t.Checked("C16.race_result")
-	if winner >= 0 && !junk {
-		okw := false
-		is := func(r rec, ok bool, exp, data int) bool {
-			return ok && r.exp != nil && *r.exp == exp && r.data == data
-		}
-		r1, ok1 := m[1]
-		r2, ok2 := m[2]
-		switch kinds[winner] {
-		case 0:
-			okw = is(r1, ok1, 7200, winner%10) && is(r2, ok2, 3600, 0)
-		case 1:
-			okw = is(r2, ok2, 7200, winner%10) && is(r1, ok1, 3600, 0)
-		default:
-			_, present := m[1+winner%2]
-			okw = !present && len(m) == 1
-		}
-		if !okw {
-			h.t.Fail("C16", "race_result", fmt.Sprintf("after the race the file holds %v, winner %d kind %d", mapS(m), winner, kinds[winner]))
-		}
-	}
-	h.t.Nontrivial(fmt.Sprintf("race-%d-%v", n, kinds))
-}
-
-// ------------------------------------------------------------ crash points
-
-func snapshot(path string) string {
-	recs, exists, junk, raw := parseFile(path)
-	if !exists {
-		return "absent"
-	}
-	if junk {
-		return "JUNK:" + string(raw)
-	}
-	var s []string
-	for _, r := range recs {
-		s = append(s, r.String())
-	}
-	sort.Strings(s)
-	return "{" + strings.Join(s, " ") + "}"
-}
-
-// what a freshly started server makes of the file
-func freshSnapshot(path string) string {
-	l, _, err := token.VerifFreshLoad(path)
-	if err != nil {
-		return "ERR"
-	}
-	var s []string
-	for _, x := range l {
-		s = append(s, toRec(x).String())
-	}
-	sort.Strings(s)
-	return "{" + strings.Join(s, " ") + "}"
-}
-
-type crashCase struct {
-	kind  string
-	setup []rec
-}
-
-var crashCases = []crashCase{
-	{"edit", []rec{{1, 1, ip(3600), nil, 1}, {2, 1, ip(7200), nil, 2}, {3, 2, ip(86400), nil, 3}}},
-	{"delete", []rec{{1, 1, ip(3600), nil, 1}, {2, 1, ip(7200), nil, 2}, {3, 2, ip(86400), nil, 3}}},
-	{"deletelast", []rec{{1, 1, ip(3600), nil, 1}}},
-	{"expire", []rec{{1, 1, ip(-700000), nil, 1}, {2, 1, ip(7200), nil, 2}}},
-	{"create", []rec{{2, 1, ip(7200), nil, 2}}},
-	{"createfirst", nil},
-}
-
-// child: one operation on the store in this (traced) process
-func childMain(args []string) {
-	kind, path := args[0], args[1]
-	sec, _ := strconv.ParseInt(args[2], 10, 64)
-	t0 = time.Unix(sec, 0).UTC()
-	token.SetStatefulFilename(path)
-	var err error
-	switch kind {
-	case "edit":
-		var e string
-		_, e, err = token.Get(tokNames[1])
-		if err == nil {
-			_, err = token.Update(rec{1, 1, ip(7200), ip(-3600), 7}.stateful(), e)
-		}
-	case "delete", "deletelast":
-		var e string
-		_, e, err = token.Get(tokNames[1])
-		if err == nil {
-			err = token.Delete(tokNames[1], e)
-		}
-	case "expire":
-		err = token.Expire()
-	case "create", "createfirst":
-		_, err = token.Update(rec{4, 2, ip(3600), nil, 4}.stateful(), "")
-	case "expirefail", "deletefail":
-		// the rename inside the operation fails (injected); afterwards the
-		// same process is asked what it honours
-		if kind == "expirefail" {
-			err = token.Expire()
-		} else {
-			var e string
-			_, e, err = token.Get(tokNames[1])
-			if err == nil {
-				err = token.Delete(tokNames[1], e)
-			}
-		}
-		var ids []string
-		for id, n := range tokNames {
-			if _, _, e := token.Get(n); e == nil {
-				ids = append(ids, strconv.Itoa(id))
-			}
-		}
-		fmt.Printf("RESULT err=%v honoured=%s\n", err != nil, strings.Join(ids, ","))
-		os.Exit(0)
-	}
-	if err != nil {
-		fmt.Println("child error:", err)
-		os.Exit(3)
-	}
-	os.Exit(0)
-}
-
-func init() {
-	if len(os.Args) > 1 && os.Args[1] == "child" {
-		// every system call of the operation is made by the traced thread
-		runtime.LockOSThread()
-	}
-}
-
-func prepare(dir string, setup []rec) string {
-	os.RemoveAll(dir)
-	os.MkdirAll(dir, 0700)
-	p := filepath.Join(dir, "tokens.jsonl")
-	if setup != nil {
-		os.WriteFile(p, encodeLines(setup, -1), 0600)
-	}
-	return p
-}
-
-var quickSyscalls = map[string]bool{"openat": true, "write": true, "close": true, "renameat": true, "unlinkat": true}
-
-var killSyscalls = []string{"openat", "write", "close", "renameat", "unlinkat", "newfstatat", "fstat", "fsync", "fdatasync", "read"}
-
-// crashPoints runs one case: the operation in a child under strace, killed at
-// the n-th occurrence of one system call, for the chosen occurrences.
-func crashPoints(t *tr.Trace, base string, cc crashCase, full bool) {
-	exe, err := os.Executable()
-	if err != nil {
-		return
-	}
-	if _, err := exec.LookPath("strace"); err != nil {
-		t.Note("strace-missing")
-		return
-	}
-	dir := filepath.Join(base, "crash")
-	t0s := strconv.FormatInt(t0.Unix(), 10)
-
-	// reference run, traced but not killed: the new set, and where in the
-	// process the operation's own system calls are
-	p := prepare(dir, cc.setup)
-	old := snapshot(p)
-	logf := filepath.Join(base, "strace.log")
-	os.Remove(logf)
-	cmd := exec.Command("strace", "-o", logf, "-e", "trace="+strings.Join(killSyscalls, ","),
-		exe, "child", cc.kind, p, t0s)
-	out, err := cmd.CombinedOutput()
-	if err != nil {
-		t.History("tokcrash", "crash")
-		t.Fail("C16", "atomic", fmt.Sprintf("reference run of %s failed: %v %s", cc.kind, err, out))
-		return
-	}
-	newS := snapshot(p)
-	logb, _ := os.ReadFile(logf)
-	startup := map[string]int{}
-	total := map[string]int{}
-	seenDir := false
-	for _, line := range strings.Split(string(logb), "\n") {
-		i := strings.IndexByte(line, '(')
-		if i <= 0 {
-			continue
-		}
-		sc := line[:i]
-		if strings.Contains(line, dir) {
-			seenDir = true
-		}
-		total[sc]++
-		if !seenDir {
-			startup[sc]++
-		}
-	}
-	if total["fsync"]+total["fdatasync"] == 0 {
-		t.Note("no-fsync-in-" + cc.kind)
-	}
-	t.History("tokcrash", "crash")
-	t.Op(fmt.Sprintf("old=%s new=%s", old, newS), "crashref", cc.kind)
-	if old == newS {
-		t.Fail("C16", "atomic", "reference run of "+cc.kind+" changed nothing")
-		return
-	}
-	points := 0
-	for _, sc := range killSyscalls {
-		if total[sc] == 0 {
-			continue
-		}
-		// one point inside start-up (before the operation), then every
-		// occurrence from the first that belongs to the operation
-		first := startup[sc]
-		if first < 1 {
-			first = 1
-		}
-		for n := first; n <= total[sc]+1; n++ {
-			if !full && !quickSyscalls[sc] {
-				// quick: every occurrence of the calls that change the
-				// directory or the files; thorough: also stat and read
-				continue
-			}
-			p := prepare(dir, cc.setup)
-			cmd := exec.Command("strace", "-o", "/dev/null", "-e", "trace="+sc,
-				"-e", fmt.Sprintf("inject=%s:signal=SIGKILL:when=%d", sc, n),
-				exe, "child", cc.kind, p, t0s)
-			err := cmd.Run()
-			killed := err != nil
-			got := snapshot(p)
-			fr := freshSnapshot(p)
-			cls := "other"
-			switch got {
-			case old:
-				cls = "old"
-			case newS:
-				cls = "new"
-			}
-			// an empty file is the empty set
-			if cls == "other" && got == "{}" && old == "absent" {
-				cls = "old-empty"
-			}
-			t.Op(fmt.Sprintf("killed=%v %s", killed, cls), "crash", cc.kind, sc, n)
-			t.Checked("C16.atomic")
-			points++
-			if cls == "other" {
-				t.Fail("C16", "atomic", fmt.Sprintf("%s killed at %s #%d: the file holds %s, neither the old set %s nor the new set %s", cc.kind, sc, n, got, old, newS))
-			}
-			t.Checked("C16.atomic_fresh_server")
-			wantFresh := got
-			if got == "absent" {
-				wantFresh = "{}"
-			}
-			if fr != wantFresh {
-				t.Fail("C16", "atomic_fresh_server", fmt.Sprintf("%s killed at %s #%d: the file holds %s but a freshly started server reads %s", cc.kind, sc, n, got, fr))
-			}
-			if !killed && cls != "new" {
-				t.Fail("C16", "atomic", fmt.Sprintf("%s completed (not killed at %s #%d) but the file holds %s", cc.kind, sc, n, got))
-			}
-			t.Note("crash-" + cc.kind + "-" + cls)
-		}
-	}
-	t.Nontrivial(fmt.Sprintf("crash-%s-%d", cc.kind, points))
-}
-
-// ioFailure: observation about I/O errors (outside the property's
-// quantifier): the rename of the rewrite fails.
-func ioFailure(t *tr.Trace, base string) {
-	exe, err := os.Executable()
-	if err != nil {
-		return
-	}
-	if _, err := exec.LookPath("strace"); err != nil {
-		return
-	}
-	dir := filepath.Join(base, "fail")
-	t0s := strconv.FormatInt(t0.Unix(), 10)
-	for _, kind := range []string{"expirefail", "deletefail"} {
-		p := prepare(dir, []rec{{1, 1, ip(-700000), nil, 1}, {2, 1, ip(7200), nil, 2}})
-		cmd := exec.Command("strace", "-o", "/dev/null", "-e", "trace=renameat",
-			"-e", "inject=renameat:error=EIO:when=1", exe, "child", kind, p, t0s)
-		out, _ := cmd.Output()
-		t.History("tokfail", "iofail")
-		line := strings.TrimSpace(string(out))
-		t.Op(line+" file="+snapshot(p), "iofail", kind)
-		// memory and file agree after a failed Delete (rolled back); after a
-		// failed Expire the memory has lost the swept token that the file
-		// still holds
-		recs, _, _, _ := parseFile(p)
-		var ids []int
-		for _, r := range recs {
-			ids = append(ids, r.name)
-		}
-		want := "RESULT err=true honoured=" + strings.ReplaceAll(idsS(ids), "-", "")
-		if line == want {
-			t.Note("iofail-" + kind + "-memory-equals-file")
-		} else {
-			t.Note("iofail-" + kind + "-memory-differs-from-file")
-		}
-	}
-}
-
-// ------------------------------------------------------------ main
-
-func runTokstore(t *tr.Trace, r *tr.Rand, n int) {
-	t0 = time.Now().UTC().Truncate(time.Second)
-	base, err := os.MkdirTemp("", "tokstore")
-	if err != nil {
-		panic(err)
-	}
-	defer os.RemoveAll(base)
-
-	corpus(t, r, base)
-	for i := 0; i < n; i++ {
-		switch {
-		case i%10 == 7:
-			editors(t, r, base, i/10)
-		case i%10 == 8:
-			race(t, r, base)
-		case i%10 == 9:
-			// the hypothesis is deliberately broken: external edits that keep
-			// the stamp, writes without waiting for the clock
-			h := newHist(t, r, base, "tokstore", "stale")
-			tickWait = r.Bool()
-			for k := r.Range(8, 30); k > 0; k-- {
-				h.randomOp(true)
-			}
-			tickWait = true
-			h.finish()
-		case i%10 == 6:
-			// malformed: mostly external edits
-			h := newHist(t, r, base, "tokstore", "malformed")
-			for k := r.Range(6, 20); k > 0; k-- {
-				if r.Chance(1, 2) {
-					h.randomExt(false)
-					h.view()
-				} else {
-					h.randomOp(false)
-				}
-			}
-			h.finish()
-		default:
-			h := newHist(t, r, base, "tokstore", "main")
-			for k := r.Range(5, 40); k > 0; k-- {
-				h.randomOp(false)
-			}
-			h.finish()
-		}
-	}
-	// crash points: every occurrence in the thorough tier, a few in quick
-	full := n >= 1000
-	for _, cc := range crashCases {
-		crashPoints(t, base, cc, full)
-	}
-	ioFailure(t, base)
-}
-
 func main() {
-	if len(os.Args) > 1 && os.Args[1] == "child" {
-		childMain(os.Args[2:])
+	if tokdrv.IsChild() {
+		tokdrv.Child()
 		return
 	}
-	tr.Main(runTokstore)
+	tr.Main(tokdrv.RunStore)
 }
